@@ -67,6 +67,20 @@ check("C05",
       "TLA+ reference similarity solver as trace-validation oracle (TLC) + exhaustive TLC model check of the reference",
       "DESIGN.md §4 C05")
 
+check("C06",
+      "Pairs of real runs of one Hamiltonian h_0 = Q D Q^dagger + perturbations (dyadic unitary Q, spectrum with "
+      "power-of-two eliminated gaps, 1-2 explicit blocks incl. degenerate explicit levels, real and complex, optional "
+      "fully_diagonalize on explicit blocks): (a) the explicit twin with the complete eigenbasis, validated by TLC "
+      "against the LeastAction reference; (b) the implicit run with only the explicit subspaces (direct solver with "
+      "default options, with sparse perturbations, with explicit solver_options; KPM). TLC (Relations.tla 'basis' with the "
+      "rectangular T = 1 (+) Q_B) requires every block of the implicit run -- explicit blocks, explicit x implicit "
+      "arrays and the densified implicit x implicit LinearOperators -- to equal T X T^dagger of the twin at every order.",
+      "Trusted: TLC/SANY 1.8.0, Json module, reduction mod p; alpha_snap: direct-solver outputs within 1e-9 of a multiple "
+      "of 2^-40, KPM outputs (atol 1e-8, orders<=2) within 40*atol of a multiple of 2^-20 -- instances are built so that "
+      "true values are dyadic with smaller denominators. Hermitian problems only (non-Hermitian implicit mode is "
+      "covered at solver level in C16); KPM convergence is not modelled.",
+      "TLA+ relation (embedding of the explicit twin) checked by TLC on paired real runs + reference validation of the twin",
+      "DESIGN.md §4 C06")
 check("C09",
       "Dsl.tla holds the mini-language as data and its direct, unoptimised meaning as defining equations per cell (start "
       "pins, hermitian/antihermitian lower blocks, summed lines, diagonal/offdiagonal conditions with the keep/eliminate "
